@@ -100,6 +100,7 @@ pub fn c06_check(id: &str, f: &Forest, dom: &WeakDom, roots: &[Ref], dx: &WeakDo
         }
         let v2 = match v {
             Variant::Ref(r) if r.is_some() && !l.contains_key(r) => Variant::Ref(Ref::none()),
+            Variant::MaterialColors(m) => Variant::BinaryString(m.encode().into()),
             o => o.clone(),
         };
         let s = crate::val::value_string(&norm_nan(&v2), &mut ctx);
@@ -116,6 +117,10 @@ pub fn c06_check(id: &str, f: &Forest, dom: &WeakDom, roots: &[Ref], dx: &WeakDo
     walk(f, 0, &mut src);
     for (i, n) in src.iter().enumerate() {
         let (ix, ib) = (dx.get_by_ref(ox[i]).unwrap(), db_.get_by_ref(ob[i]).unwrap());
+        if ix.class == ib.class && lx.get(&ix.parent()) == lb.get(&ib.parent()) && ix.name != ib.name {
+            out.push(format!("{id} C06 name instance #{} of class {} is named {:?} after the XML round trip and {:?} after the binary one", i + 1, ix.class, ix.name, ib.name));
+            continue;
+        }
         if ix.class != ib.class || ix.name != ib.name || lx.get(&ix.parent()) != lb.get(&ib.parent()) {
             out.push(format!("{id} C06 tree instance #{} differs: XML {}/{:?}, binary {}/{:?}", i + 1, ix.class, ix.name, ib.class, ib.name));
             return;
